@@ -231,8 +231,9 @@ def symbolic_app_state(ctx, ex, app, tag, n_arrays=2):
         ex._shared_memories[app]._arrays._arrays = {sa: sarr}
 
 
-def pin_register(ctx, ex, app, reg, name, shared=False):
-    """name the pre-state value of register ``reg`` as an input (so counter-models can be replayed)"""
+def pin_register(ctx, ex, app, reg, name, shared=False, big_ok=False):
+    """name the pre-state value of register ``reg`` as an input (so counter-models can be replayed); ``big_ok``: the instruction
+    cannot use the value as a size, so a counter-model with a huge value is replayed too (e.g. arithmetic past 32 bits)"""
     grp = (ex._shared_memories[app]._registers if shared else ex._registers[app])
     if ctx.symbolic:
         v = ctx.optint(name)
@@ -243,7 +244,7 @@ def pin_register(ctx, ex, app, reg, name, shared=False):
         ctx.it.pc.append(z3.And(undefined == v.isnone, z3.Implies(z3.Not(v.isnone), z3.Select(m.val, idx) == v.val)))
         return v
     v = ctx.optint(name, -40, 40) if ctx.rng is not None else ctx.optint(name)
-    if isinstance(v, int) and abs(v) > 10 ** 7:
+    if isinstance(v, int) and abs(v) > 10 ** 7 and not big_ok:
         from pyvc.harness import Skip
         raise Skip()          # replaying such a value natively could allocate gigabytes (array length)
     grp[reg.name]._register[reg.index] = v
